@@ -279,6 +279,9 @@ type Func struct {
 	Params []Param
 	Ret    Type
 	Body   []Stmt
+	// Shared: a helper declared identically (same pointer) by many cases: CloneProgram keeps the
+	// pointer, Walk does not enter it (rewrites leave it alone), prog.Pack emits it once.
+	Shared bool
 }
 type Program struct {
 	Structs []*TStruct
